@@ -17,8 +17,9 @@ from ..core import cz
 ID = "C02"
 THEOREMS = ["C02_walk_is_path", "C02_color_road", "C02_has_road", "C02_winner", "C02_flat_count",
             "C02_has_road_agrees_winner", "C02_no_road_agrees_winner", "C02_tie_kind_is_road",
-            "C02_source_winner_outcome"]
-MODEL_TARGETS = ["model/Tak.vo", "model/Road.vo", "model/Harness.vo", "model/Lit.vo"]
+            "C02_source_winner_outcome",
+            "C02_walk_py_reach", "C02_walk_py_eq", "C02_walk_py_is_path", "C02_has_road_py_eq", "C02_has_road_py"]
+MODEL_TARGETS = ["model/Tak.vo", "model/Road.vo", "model/RoadPy.vo", "model/Harness.vo", "model/Lit.vo"]
 TRUSTED_BASE = [
     "CPython list indexing board[y*size+x] and stack[0] = top (validated by the correspondence)",
     "model/Road.v computes reachability by rounds of neighbour closure, not by the Python work-list: results are "
@@ -433,7 +434,7 @@ def streams(run, scale=1.0):
 
 
 # --------------------------------------------------------------------------
-def _report(run, meta, extra=None):
+def _report(run, meta, extra=None, clause_if_agree=None):
     pos = unpack(meta["pk"])
     jp = takio.j_pos(pos)
     w, h, crash = observe(pos)
@@ -443,6 +444,8 @@ def _report(run, meta, extra=None):
         impl = {"crash": crash}
     else:
         clause = clause_of(pos, w, h, ow, oh)
+        if clause_if_agree and w == ow and h == oh:
+            clause = clause_if_agree
         impl = j_out(w, h)
     rp = {"clause": clause, "input": {"position": jp, "category": meta["category"]},
           "impl_output": impl, "property_says": j_out(ow, oh)}
@@ -540,6 +543,99 @@ def correspondence(run):
     for meta in crashes[:MAX_REPLAYS]:
         _report(run, meta)
     run.extra["c02_disagreements"] = st["disagree"] + len(crashes)
+    correspondence_walkpy(run)
+
+
+# --------------------------------------------------------------------------
+# the Python work-list itself: model/RoadPy.v (statement-by-statement mirror of _walk / has_road, evaluated in
+# Coq with walk_fuel p = 5*size^2 + size + 1 loop iterations) against the four _walk calls of has_road
+# --------------------------------------------------------------------------
+HEADER_PY = (
+    "From Coq Require Import ZArith List Bool.\n"
+    "From TV Require Import model.Tak model.Road model.RoadPy model.Lit.\n"
+    "Import ListNotations.\n"
+    "Definition pyb (a : pyres bool) (b : bool) : bool := match a with Done x => Bool.eqb x b | OutOfFuel => false end.\n"
+    "Definition pyc (a : pyres (option color)) (b : option color) : bool :=\n"
+    "  match a with Done x => opt_eqb color_eqb x b | OutOfFuel => false end.\n"
+    "Definition wfb (p : position) : bool := (1 <=? size p)%Z && (zlen (board p) =? size p * size p)%Z."
+)
+CTYPE_PY = "position * (bool * bool * bool * bool) * option color"
+CHECK_PY = ("fun cs => let '(p, (wl, wt, bl, bt), h) := cs in let f := walk_fuel p in wfb p && "
+            "pyb (walk_py f p (left_seeds p) White true) wl && pyb (walk_py f p (top_seeds p) White false) wt && "
+            "pyb (walk_py f p (left_seeds p) Black true) bl && pyb (walk_py f p (top_seeds p) Black false) bt && "
+            "pyc (has_road_py f p) h && "
+            # ... and the closure model (Road.walk) agrees with each of the four calls as well
+            "Bool.eqb (walk p White true) wl && Bool.eqb (walk p White false) wt && "
+            "Bool.eqb (walk p Black true) bl && Bool.eqb (walk p Black false) bt")
+SHOW_PY = ("fun cs => let '(p, _, _) := cs in let f := walk_fuel p in (f, walk_py f p (left_seeds p) White true, "
+           "walk_py f p (top_seeds p) White false, walk_py f p (left_seeds p) Black true, "
+           "walk_py f p (top_seeds p) Black false, has_road_py f p)")
+
+
+def walkpy_stream(run):
+    rng = run.rng
+    for item in corpus_positions():
+        yield item
+    per = 5 if run.quick else 40
+    for n in range(3, 9):
+        for kind in PERTURB:
+            for _ in range(per):
+                stones, _s = gen_reserves(rng, n)
+                yield (f"road-{kind}", mkpos(n, road_board(rng, n, kind), rng.randint(0, 80), stones))
+        for dens in (0.5, 0.75, 1.0, 1.0):
+            for _ in range(per):
+                board = random_board(rng, n, dens, rng.choice([0.5, 0.8, 0.95]), rng.choice([0.0, 0.1]))
+                stones, _s = gen_reserves(rng, n)
+                yield (f"random-d{dens}", mkpos(n, board, rng.randint(0, 80), stones))
+
+
+def observe_walks(pos):
+    import tak
+    n = pos.size
+    left = [(0, i) for i in range(n)]
+    top = [(i, 0) for i in range(n)]
+    try:
+        ws = (pos._walk(left, tak.Color.WHITE, True), pos._walk(top, tak.Color.WHITE, False),
+              pos._walk(left, tak.Color.BLACK, True), pos._walk(top, tak.Color.BLACK, False))
+        return ws, pos.has_road(), None
+    except Exception as e:  # noqa
+        return None, None, f"Crash {type(e).__name__}"
+
+
+def correspondence_walkpy(run):
+    cs = core.Cases(ID, "walkpy", HEADER_PY, CTYPE_PY, CHECK_PY, show=SHOW_PY, shard=40)
+    crashes = []
+    dist = {"size": {}, "walk_true": 0, "walk_false": 0}
+    seen = set()
+    for cat, pos in walkpy_stream(run):
+        ws, h, crash = observe_walks(pos)
+        meta = {"category": "walkpy:" + cat, "pk": pack(pos)}
+        if crash:
+            crashes.append(meta)
+            continue
+        cs.add(f"({takio.c_pos(pos)}, ({', '.join(core.cbool(bool(w)) for w in ws)}), {takio.c_color(h)})", meta)
+        seen.add(poshash(meta["pk"]))
+        dist["size"][pos.size] = dist["size"].get(pos.size, 0) + 1
+        dist["walk_true"] += sum(1 for w in ws if w)
+        dist["walk_false"] += sum(1 for w in ws if not w)
+    t1 = time.time()
+    failing, shard_fail, nshards = cs.run()
+    run.extra["c02_walkpy_coq_s"] = round(time.time() - t1, 1)
+    run.oblige(f"correspondence:walkpy ({nshards} shards)", not shard_fail and not crashes,
+               str(shard_fail)[:1200] + str([c["category"] for c in crashes[:3]]))
+    run.count(len(cs) * 4, len(seen),
+              "the four _walk(seeds, colour, horiz) calls of has_road and has_road() itself compared with "
+              "model/RoadPy.v (work-list mirror, walk_fuel = 5*size^2+size+1 iterations, OutOfFuel counts as a "
+              "failure) and with Road.walk, inside Coq; sizes 3-8; distinct positions",
+              [], dist, label="walkpy")
+    for meta in (crashes + failing)[:2]:
+        view = None if meta in crashes else cs.model_view(cs.terms[cs.metas.index(meta)])
+        pos = unpack(meta["pk"])
+        ws, h, crash = observe_walks(pos)
+        _report(run, meta, {"family": "walkpy", "impl_walks(left W, top W, left B, top B)": ws or crash,
+                            "model_view(fuel, walk_py x4, has_road_py)": view},
+                clause_if_agree="_walk: a single _walk(seeds, colour, horiz) call does not answer 'a chain of road squares "
+                                "of the colour joins the near edge to the far edge' (has_road() happens to be right)")
 
 
 def search(run, broken):
